@@ -46,15 +46,12 @@ Qed.
 
 
 Lemma flow_eptmap_pack mf fuel m :
-  run (W mf) fuel k_flow_eptmap_pack [VO (OEptMap m)] =
-  chk (in_range 2 (len (em_tower m)) && handle_ok (em_entry_handle m)
-       && in_range 8 (len (tower_bytes (em_tower m))) && in_range 4 (len (tower_bytes (em_tower m)))
-       && in_range 4 (em_max_towers m)) (ept_map_pack m).
+  run (W mf) fuel k_flow_eptmap_pack [VO (OEptMap m)] = chk (ept_map_ranges m) (ept_map_pack m).
 Proof.
-  unfold ept_map_pack, tower_bytes, entry_handle_pack, handle_ok, chk, k_flow_eptmap_pack, k_eptmap_pack_pad.
+  unfold ept_map_pack, tower_bytes, entry_handle_pack, ept_map_ranges, handle_ranges, chk, k_flow_eptmap_pack, k_eptmap_pack_pad.
   destruct m as [ob fs eh mt]. hide_comps.
   destruct eh as [[a u]|]; destruct ob as [u'|].
-  all: tie; comp_step OFloor floor_pack; tie.
+  all: tie. all: comp_step OFloor floor_ranges floor_pack; tie.
 Qed.
 
 Lemma flow_eptmap_unpack_total mf mfuel fuel data : len data < Z.of_nat mfuel ->
